@@ -183,47 +183,67 @@ def jobs_all(quick, rng):
 
 
 def table_records():
-    """The live tables, dumped through public behaviour only where possible."""
+    """The live tables, dumped through public behaviour only where possible.  The table objects themselves are reached
+    by their module-level names; a table that is no longer kept under its name is not observed (TABLE_NOTES) - the
+    sweeps against the pinned published tables do not depend on it."""
     common.use_repo()
     import sys as _s
     import athlib
     from athlib import normalize_event_code, check_event_code
     out = []
-    sh = _s.modules['athlib.sportshall_score']
-    db = sh.load_data()
-    for ev, info in sorted(db.items()):
-        high = ev in ['SLJ', 'SHJ', 'STJ', 'SP', 'BAL', 'SPB', 'TART', 'OHT', 'CHT', 'JT']
-        rows = []
-        for p, v in info['perf2points']:
-            c = int(round(float(v) * 100))
-            rows.append([p, c, call(athlib.sportshall_score, ev, v)])
-        out.append({'k': 'table', 'sys': 'sportshall', 'key': ev, 'high': high, 'rows': rows,
-                    'normkey': _norm_ok(ev, normalize_event_code, check_event_code), 'n': len(rows)})
-    bg = _s.modules['athlib.bulgarian_score'].scores
-    for key, tb in sorted(bg.items()):
-        timed = tb['min'] > tb['max']
-        ev = key[4:]
-        rows = []
-        xs = sorted(x for x in tb if isinstance(x, int))
-        # one row per step of the table (first mark of every points value)
-        steps = {}
-        for x in (xs if not timed else xs[::-1]):
-            steps.setdefault(tb[x], x)
-        for p, x in sorted(steps.items()):
-            rows.append([p, x, call(athlib.bulgarian_score, key[:3], key[3], ev, x / 100.0)])
-        out.append({'k': 'table', 'sys': 'bulgarian', 'key': key, 'high': not timed, 'rows': rows,
-                    'normkey': _norm_ok(ev, normalize_event_code, check_event_code), 'n': len(rows)})
-    ty = _s.modules['athlib.tyrving_score']._tyrvingTables
-    for g in sorted(ty):
-        for ev in sorted(ty[g]):
-            out.append({'k': 'table', 'sys': 'tyrving', 'key': '%s|%s' % (g, ev), 'high': True, 'rows': [],
-                        'normkey': _norm_ok(ev, normalize_event_code, check_event_code), 'n': 1})
-    qk = _s.modules['athlib.qkids_score']._qkidsTables
-    for ct in sorted(qk):
-        for ev in sorted(qk[ct]):
-            out.append({'k': 'table', 'sys': 'qkids', 'key': '%s|%s' % (ct, ev), 'high': True, 'rows': [],
-                        'normkey': _norm_ok(ev, normalize_event_code, check_event_code), 'n': 1})
+    del TABLE_NOTES[:]
+
+    def sportshall():
+        sh = _s.modules['athlib.sportshall_score']
+        db = sh.load_data()
+        for ev, info in sorted(db.items()):
+            high = ev in ['SLJ', 'SHJ', 'STJ', 'SP', 'BAL', 'SPB', 'TART', 'OHT', 'CHT', 'JT']
+            rows = []
+            for p, v in info['perf2points']:
+                c = int(round(float(v) * 100))
+                rows.append([p, c, call(athlib.sportshall_score, ev, v)])
+            yield {'k': 'table', 'sys': 'sportshall', 'key': ev, 'high': high, 'rows': rows,
+                   'normkey': _norm_ok(ev, normalize_event_code, check_event_code), 'n': len(rows)}
+
+    def bulgarian():
+        bg = _s.modules['athlib.bulgarian_score'].scores
+        for key, tb in sorted(bg.items()):
+            timed = tb['min'] > tb['max']
+            ev = key[4:]
+            rows = []
+            xs = sorted(x for x in tb if isinstance(x, int))
+            # one row per step of the table (first mark of every points value)
+            steps = {}
+            for x in (xs if not timed else xs[::-1]):
+                steps.setdefault(tb[x], x)
+            for p, x in sorted(steps.items()):
+                rows.append([p, x, call(athlib.bulgarian_score, key[:3], key[3], ev, x / 100.0)])
+            yield {'k': 'table', 'sys': 'bulgarian', 'key': key, 'high': not timed, 'rows': rows,
+                   'normkey': _norm_ok(ev, normalize_event_code, check_event_code), 'n': len(rows)}
+
+    def tyrving():
+        ty = _s.modules['athlib.tyrving_score']._tyrvingTables
+        for g in sorted(ty):
+            for ev in sorted(ty[g]):
+                yield {'k': 'table', 'sys': 'tyrving', 'key': '%s|%s' % (g, ev), 'high': True, 'rows': [],
+                       'normkey': _norm_ok(ev, normalize_event_code, check_event_code), 'n': 1}
+
+    def qkids():
+        qk = _s.modules['athlib.qkids_score']._qkidsTables
+        for ct in sorted(qk):
+            for ev in sorted(qk[ct]):
+                yield {'k': 'table', 'sys': 'qkids', 'key': '%s|%s' % (ct, ev), 'high': True, 'rows': [],
+                       'normkey': _norm_ok(ev, normalize_event_code, check_event_code), 'n': 1}
+    for name, gen in (('sportshall', sportshall), ('bulgarian', bulgarian), ('tyrving', tyrving), ('qkids', qkids)):
+        try:
+            out += list(gen())
+        except Exception as e:
+            TABLE_NOTES.append('the live %s table could not be read under its module-level name (%s): its order / reachability / '
+                               'key clauses are not observed in this run' % (name, type(e).__name__))
     return out
+
+
+TABLE_NOTES = []
 
 
 def _norm_ok(ev, norm, check):
@@ -252,6 +272,7 @@ def run(pid, tier):
             raise MachineryError('the junior-scoring reference violates %s' % r.violated)
         rep.absorb_tlc(r)
         recs = sweep(quick, rng) + table_records()
+        rep.notes += TABLE_NOTES
         judge(rep, specdir, sc, recs, want)
     rep.assumptions += ['published tables = pinned snapshot refdata/junior.json (pinned commit + corrections recorded as fix: commits)',
                         'documented input forms per function: Tyrving/QuadKids text, number, m:ss.xx; Sportshall text; Bulgarian numbers and m:ss.xx for timed events']
